@@ -488,6 +488,8 @@ def line_seg_pt_intersect_at_dim(
         return None
 
     point_on_line = P1 + t * (P2 - P1)
+    # By construction the intersection lies on the target hyperplane; rounding must not move it.
+    point_on_line[target_dim] = target_pt[target_dim]
     return point_on_line
 
 
